@@ -1,6 +1,7 @@
 import RxModel.Lemmas.Impl
 import RxModel.Props.C09
 import RxModel.Lemmas.Local
+import RxModel.Catalog
 /-!
 # C13 — item-level errors on multiplexed streams are isolated and routable
 
@@ -149,5 +150,62 @@ example : (compLocal (mapOp (fun n : Nat => if n % 2 = 0 then Except.error "Valu
     = [.item 11, .item 13] := by decide
 example : errorsOf ((mapOp (fun n : Nat => if n % 2 = 0 then (Except.error "ValueError" : Except Err Nat) else .ok n)).outL [1, 2, 3, 4])
     = ["ValueError", "ValueError"] := by decide
+
+
+/-! ### all failing items at once -/
+
+/-- **every subset of failing items at once**: when whether the accumulator raises is decided by the item alone (`bad x = some e`),
+`scan | ignore` over any item list is `scan | ignore` over the list without the failing items — first, last, consecutive, all. -/
+theorem C13_scan_all_absent {α γ} (g : γ → α → Except Err γ) (seed : γ) (r : Bool) (tm : Option (γ → γ))
+    (bad : α → Option Err) (hbad : ∀ a x e, bad x = some e → g a x = .error e) (xs : List α) :
+    (compLocal (scanOp g seed r tm) ignoreOp).outL xs =
+      (compLocal (scanOp g seed r tm) ignoreOp).outL (xs.filter (fun x => (bad x).isNone)) := by
+  suffices h : ∀ pre : List α, (compLocal (scanOp g seed r tm) ignoreOp).outL (pre ++ xs) =
+      (compLocal (scanOp g seed r tm) ignoreOp).outL (pre ++ xs.filter (fun x => (bad x).isNone)) by
+    simpa using h []
+  induction xs with
+  | nil => intro pre; rfl
+  | cons x xs ih =>
+    intro pre
+    cases hb : bad x with
+    | none =>
+      have := ih (pre ++ [x])
+      simp only [List.append_assoc, List.singleton_append] at this
+      simp only [List.filter_cons, hb, Option.isNone_none, if_true]
+      exact this
+    | some e =>
+      rw [C13_scan_absent g seed r tm pre xs x e (hbad _ x e hb)]
+      simp only [List.filter_cons, hb, Option.isNone_some]
+      exact ih pre
+
+example : (compLocal (scanOp (fun (a n : Nat) => if n % 2 = 0 then Except.error "ValueError" else .ok (a + n)) 0 false none) ignoreOp).outL [2, 1, 4, 4, 3]
+    = [.item 1, .item 4] := by decide
+
+/-- the catalog's failing accumulator (`raise_if_mod k r`: the harness's user function) meets the hypothesis: over int items,
+the items with `x % k = r` are as if absent, all of them at once -/
+theorem C13_scan_catalog_absent (k r : Nat) (exc : String) (seed : Val) (rd : Bool) (xs : List Int) :
+    (compLocal (scanOp (Fn2.raiseIfMod k r exc).eval seed rd none) ignoreOp).outL (xs.map Val.int) =
+      (compLocal (scanOp (Fn2.raiseIfMod k r exc).eval seed rd none) ignoreOp).outL
+        ((xs.filter (fun i => !(i % (k : Int) == (r : Int)))).map Val.int) := by
+  rw [C13_scan_all_absent (Fn2.raiseIfMod k r exc).eval seed rd none
+    (fun x => match x with | .int i => if i % (k : Int) == (r : Int) then some exc else none | _ => none)]
+  · congr 1
+    induction xs with
+    | nil => rfl
+    | cons i xs ih =>
+      simp only [List.map_cons, List.filter_cons]
+      by_cases h : (i % (k : Int) == (r : Int)) = true
+      · simp only [h, if_true, Option.isNone_some, Bool.not_true]; exact ih
+      · simp only [h, Bool.not_false, List.map_cons]; rw [ih]; simp
+  · intro a x e hb
+    cases x with
+    | int i =>
+      simp only at hb
+      by_cases h : (i % (k : Int) == (r : Int)) = true
+      · simp only [h, if_true, Option.some.injEq] at hb
+        subst hb
+        simp [Fn2.eval, intOf, h, bind, Except.bind]
+      · simp [h] at hb
+    | _ => simp at hb
 
 end Rx
